@@ -65,6 +65,11 @@ def is_false(e) -> bool:
 # ---- uninterpreted functions shared by the models of externals ---------------------------------
 # float(str): acceptance predicate and value (CPython's float() is trusted, see DESIGN 8 X-STD)
 float_ok = z3.Function("float_ok", S, B)
+# text of a lark.Token (a str subclass; immutable): a function of the object
+def TOKTEXT(ref):
+    # (declared on first use: a declaration made at import time shifts z3's term numbering for every function verified,
+    # and borderline in-line feasibility checks of functions that never see a Token then come out differently)
+    return z3.Function("tok_text", I, S)(ref)
 float_of = z3.Function("float_of", S, R)
 int_ok = z3.Function("int_ok", S, B)
 int_of = z3.Function("int_of", S, I)
